@@ -20,13 +20,25 @@ def lattice_origins(ax, ay, dh, nx, ny, active=None):
     return numpy.array(out, dtype=float).reshape(-1, 2), cells
 
 
-def region(nx=3, ny=2, dh=0.1, ax=0.0, ay=0.0, magnitudes=None, active=None, name="r"):
+def region(nx=3, ny=2, dh=0.1, ax=0.0, ay=0.0, magnitudes=None, active=None, name="r", mask=None):
     from csep.core import regions
     origins, cells = lattice_origins(ax, ay, dh, nx, ny, active)
-    reg = regions.CartesianGrid2D.from_origins(origins, dh=float(dh), magnitudes=None if magnitudes is None else numpy.asarray(magnitudes, dtype=float),
-                                               name=name)
+    mags_ = None if magnitudes is None else _mag_array(magnitudes)
+    if mask is None:
+        reg = regions.CartesianGrid2D.from_origins(origins, dh=float(dh), magnitudes=mags_, name=name)
+    else:
+        # what GriddedForecast.load_ascii does for a file with a flag column: every listed cell is a polygon, the flags are the region's mask
+        reg = regions.CartesianGrid2D([regions.Polygon(bbox) for bbox in regions.compute_vertices(origins, float(dh))], float(dh), name=name,
+                                      mask=numpy.asarray(mask), magnitudes=mags_)
     reg._verif_cells = cells
     return reg
+
+
+def _mag_array(magnitudes):
+    # an ndarray of integer or single-precision bin edges is passed on as it is (users do write numpy.arange(4, 9)); everything else -> float64
+    if isinstance(magnitudes, numpy.ndarray) and magnitudes.dtype.kind in "iuf":
+        return magnitudes
+    return numpy.asarray(magnitudes, dtype=float)
 
 
 def mag_bins(start="4.95", step="0.1", n=5):
@@ -52,7 +64,7 @@ def gridded_forecast(data, reg, magnitudes, name="fore", start=None, end=None):
     start = start or datetime.datetime(2010, 1, 1, tzinfo=UTC)
     end = end or datetime.datetime(2011, 1, 1, tzinfo=UTC)
     return GriddedForecast(start_time=start, end_time=end, data=numpy.array(data, dtype=float), region=reg,
-                           magnitudes=numpy.asarray(magnitudes, dtype=float), name=name)
+                           magnitudes=_mag_array(magnitudes), name=name)
 
 
 def catalog_forecast(cats, reg, name="cf", **kw):
